@@ -242,6 +242,12 @@ func (f *SimpleGlyf) makeDict() (*dict.TrueType, error) {
 
 	isSymbolic := f.isSymbolic()
 
+	// without a named encoding the reader has no glyph names to get text from
+	toUnicode := f.Simple.ToUnicode()
+	if isSymbolic {
+		toUnicode = f.Simple.ToUnicodeFull()
+	}
+
 	var dictEnc encoding.Simple
 	if isSymbolic {
 		// Use the built-in encoding, defined by a (1,0) "cmap" subtable which
@@ -351,7 +357,7 @@ func (f *SimpleGlyf) makeDict() (*dict.TrueType, error) {
 		Descriptor:     fd,
 		Encoding:       dictEnc,
 		Width:          widths,
-		ToUnicode:      f.Simple.ToUnicode(),
+		ToUnicode:      toUnicode,
 		FontFile:       sfntglyphs.ToStream(subsetFont, glyphdata.TrueType),
 	}
 
